@@ -8,7 +8,7 @@ EXPLANATION = (
     "cwd, directory listings, id/hash, ...). R2: no set is created and used beyond membership tests "
     "anywhere in gtwrap/scripts, so nothing hash-seed dependent can reach the output. R3: every attribute "
     "mutated on a path from PybindWrapper.wrap_file - including on helper objects held by the wrapper - is "
-    "re-initialised by wrap_file (MatlabWrapper is single-use: wrap() is its only public entry and never "
+    "re-initialised by wrap_file, and no class-level or module-level container, `global` or process-wide memo decorator is mutated/used at run time (MatlabWrapper is single-use: wrap() is its only public entry and never "
     "resets anything; exempt by name). R4: the path of every write site is derived from an output-location "
     "parameter of a public entry point at every call site on the way, or is <stem>+constant suffix that "
     "cannot coincide with an interface file. R5: every read site's path derives from a given input, the "
@@ -27,6 +27,7 @@ def run(ctx, rep):
     rep.run(RF.rule_no_unordered, ctx, rep, "R2")
     rep.require_min("R2", 20)
     rep.run(RF.rule_accumulators, ctx, rep, "R3")
+    rep.run(RF.rule_no_shared_state, ctx, rep, "R3")
     rep.run(RF.rule_write_provenance, ctx, rep, "R4", min_sites=4)
     rep.run(RF.rule_read_sites, ctx, rep, "R5", min_sites=4)
     rep.run(RF.rule_whole_file_writes, ctx, rep, "R6", min_sites=3)
